@@ -79,6 +79,7 @@ def run(ctx) -> None:
     r5_ownership(ctx)
     r9_operators_and_memos(ctx)
     r11_config_not_shared(ctx)
+    r12_rule_objects_fresh(ctx)
     r6_singletons(ctx)
     r7_mutable_defaults(ctx)
     r8_fresh_state(ctx)
@@ -792,3 +793,47 @@ def r8_fresh_state(ctx) -> None:
                 else:
                     r.violation("C15.R8", de.qual, short(c), "deferred expression registers in a state other than the one it was given", de.loc)
     r.floor("C15.R8", 3)
+
+
+def r12_rule_objects_fresh(ctx, rid: str = "C15.R12") -> None:
+    """Pipelines rewrite detections in place. A detection object that a filter or a transformation puts into a rule must
+    therefore belong to that rule alone: built for it (constructor / from_definition) or deep-copied — a shallow copy
+    shares the detection items, an attribute of the filter/transformation is the same object for every rule."""
+    r, prog = ctx.r, ctx.prog
+    r.rule(rid, "every detection object stored into a rule's detection map is built or deep-copied for that rule (no shallow copy, no object kept on the filter or transformation): what a pipeline does to one rule is not visible in the next")
+
+    def fresh(v: ast.AST) -> bool:
+        if isinstance(v, ast.IfExp):
+            return fresh(v.body) and fresh(v.orelse)
+        if isinstance(v, ast.Call):
+            d = call_name(v)
+            return d in ("copy.deepcopy", "deepcopy") or d.split(".")[-1] in ("SigmaDetection", "from_definition")
+        return False
+    n = 0
+    for q, f in sorted(prog.funcs.items()):
+        if not f.module.name.startswith("sigma.") or f.module.name.startswith("sigma.rule."):
+            continue
+        sites: list[tuple[ast.AST, ast.AST]] = []
+        for st in walk_no_nested(f.node):
+            if isinstance(st, ast.Assign):
+                for t in st.targets:
+                    if isinstance(t, ast.Subscript) and unparse(t.value).endswith(".detection.detections"):
+                        sites.append((st, st.value))
+            if isinstance(st, ast.Call) and call_name(st).endswith(".detection.detections.update") and st.args:
+                a0 = st.args[0]
+                if isinstance(a0, ast.DictComp):
+                    sites.append((st, a0.value))
+                elif isinstance(a0, ast.Dict):
+                    sites += [(st, v) for v in a0.values]
+                else:
+                    sites.append((st, a0))
+        for st, v in sites:
+            n += 1
+            loc = f"{f.module.relpath}:{st.lineno}"
+            if fresh(v):
+                r.ok(rid, q, f"{short(st, 90)}: built or deep-copied for this rule", loc)
+            else:
+                r.violation(rid, q, short(st, 140),
+                            f"{short(v, 60)} is not an object of this rule alone (shallow copy / object kept on the filter or transformation): its detection items are shared with every other rule that gets it, and pipelines transform detections in place — a rule converted later starts from what the pipeline did to an earlier one (a field prefix applied twice), also when the earlier rule failed", loc)
+    r.analysed[f"{rid}.detection_map_stores"] = n
+    r.floor(rid, 2)
